@@ -28,7 +28,8 @@ FlagSpace == [ np     : 1..4,                       \* pages
                bnum   : BOOLEAN,                    \* purely numeric body line
                beqh   : BOOLEAN,                    \* body line whose text equals the header text
                title  : BOOLEAN,                    \* a unique top-band line on page 1
-               short  : BOOLEAN ]                   \* last page has little content (content bounds << page)
+               short  : BOOLEAN,                    \* last page has little content (content bounds << page)
+               cover  : BOOLEAN ]                   \* page 1 is a cover: no running header, footer line or page number
 
 \* keys: 1 header A, 2 header B, 3 "Page #", 4 "#", 5 footer line, 6 repeating body line, 7 title,
 \*       100+p*10+i unique body lines
@@ -36,7 +37,8 @@ F(b, s, k, n) == [band |-> b, slot |-> s, key |-> k, num |-> n]
 
 PageOf(fl, p) ==
     (IF fl.title /\ p = 1 THEN <<F("Top", 2, 7, FALSE)>> ELSE <<>>)
-    \o (CASE fl.hdr = "all" -> <<F("Top", 1, 1, FALSE)>>
+    \o (CASE fl.cover /\ p = 1 -> <<>>
+          [] fl.hdr = "all" -> <<F("Top", 1, 1, FALSE)>>
           [] fl.hdr = "oddeven" -> <<F("Top", 1, IF p % 2 = 1 THEN 1 ELSE 2, FALSE)>>
           [] OTHER -> <<>>)
     \* on a short page the body lines sit right below the top band
@@ -44,8 +46,9 @@ PageOf(fl, p) ==
     \o (IF fl.bnum THEN <<F("Body", IF fl.short /\ p = fl.np THEN 8 ELSE 4, 4, TRUE)>> ELSE <<>>)
     \o (IF fl.short /\ p = fl.np THEN <<>> ELSE <<F("Body", 5, 100 + p * 10 + 1, FALSE), F("Body", 6, 100 + p * 10 + 2, FALSE)>>)
     \o (IF fl.brep THEN <<F("Body", 7, 6, FALSE)>> ELSE <<>>)
-    \o (IF fl.foot THEN <<F("Bottom", 1, 5, FALSE)>> ELSE <<>>)
-    \o (CASE fl.num = "pageN" -> <<F("Bottom", 2, 3, TRUE)>> [] fl.num = "bare" -> <<F("Bottom", 2, 4, TRUE)>> [] OTHER -> <<>>)
+    \o (IF fl.foot /\ ~(fl.cover /\ p = 1) THEN <<F("Bottom", 1, 5, FALSE)>> ELSE <<>>)
+    \o (CASE fl.cover /\ p = 1 -> <<>>
+          [] fl.num = "pageN" -> <<F("Bottom", 2, 3, TRUE)>> [] fl.num = "bare" -> <<F("Bottom", 2, 4, TRUE)>> [] OTHER -> <<>>)
 
 DocOf(fl) == [p \in 1..fl.np |-> PageOf(fl, p)]
 
@@ -58,10 +61,14 @@ Frags(p) == 1..Len(doc[p])
 Same(f, g) == f.band = g.band /\ f.slot = g.slot /\ f.key = g.key
 RepeatsAtPosition(p, i) == \E q \in 1..Len(doc) : q # p /\ \E j \in Frags(q) : Same(doc[p][i], doc[q][j])
 OnEveryPage(p, i) == Len(doc) >= 2 /\ \A q \in 1..Len(doc) : \E j \in Frags(q) : Same(doc[p][i], doc[q][j])
+\* running page numbers: a page-number pattern at the same margin position on every page,
+\* where an unnumbered first page (a cover) does not stop the numbers from running (at least 3 numbered pages)
+RunningNumber(p, i) == /\ doc[p][i].num /\ Len(doc) >= 4
+                       /\ \A q \in 2..Len(doc) : \E j \in Frags(q) : Same(doc[p][i], doc[q][j])
 Requested(b) == (b = "Top" /\ opt \in {"headers", "both"}) \/ (b = "Bottom" /\ opt \in {"footers", "both"})
 
 Allowed(p)   == {i \in Frags(p) : doc[p][i].band # "Body" /\ (RepeatsAtPosition(p, i) \/ doc[p][i].num)}
-Mandatory(p) == {i \in Frags(p) : doc[p][i].band # "Body" /\ Requested(doc[p][i].band) /\ OnEveryPage(p, i)}
+Mandatory(p) == {i \in Frags(p) : doc[p][i].band # "Body" /\ Requested(doc[p][i].band) /\ (OnEveryPage(p, i) \/ RunningNumber(p, i))}
 
 \* Filter(p, removed) is a legal result for page p iff ...
 FilterOK(p, removed) == /\ removed \subseteq Allowed(p) /\ Mandatory(p) \subseteq removed
